@@ -210,11 +210,7 @@ def extract(repo: Path) -> dict:
         raise T.TranslateError("_apply_pack: the CAS result is used at some call sites and dropped at others "
                                "(the model has one switch)")
     d["cas_result_used"] = not bare
-    # is membership of the new object in the object store checked?
-    d["new_object_checked"] = any(
-        isinstance(n, ast.Compare) and isinstance(n.ops[0], (ast.In, ast.NotIn)) and "object_store" in ast.unparse(n.comparators[0])
-        for n in ast.walk(ap))
-    # atomic branch: does the validation loop look at the current ref value?
+    # atomic branch: validation loop, apply loop; non-atomic loop
     atomic_if = None
     for n in ast.walk(ap):
         if isinstance(n, ast.If) and isinstance(n.test, ast.Name) and n.test.id == "atomic":
@@ -222,15 +218,46 @@ def extract(repo: Path) -> dict:
     if atomic_if is None:
         raise T.TranslateError("_apply_pack: `if atomic:` not found")
     loops = [s for s in atomic_if.body if isinstance(s, ast.For)]
-    if len(loops) < 2:
-        raise T.TranslateError("_apply_pack: atomic branch does not have a validation loop and an apply loop")
+    plain = [s for s in atomic_if.orelse if isinstance(s, ast.For)]
+    if len(loops) != 2 or len(plain) != 1:
+        raise T.TranslateError("_apply_pack: expected a validation loop and an apply loop under `if atomic:` and one loop otherwise")
+
+    def checks_object(node) -> bool:
+        """does `node` test that `sha` is in the object store (directly or through self._has_object)?"""
+        for n in ast.walk(node):
+            if isinstance(n, ast.Compare) and isinstance(n.ops[0], (ast.In, ast.NotIn)) and "object_store" in ast.unparse(n.comparators[0]):
+                return True
+            if isinstance(n, ast.Call) and ast.unparse(n.func) == "self._has_object":
+                if ast.unparse(n) != "self._has_object(sha, zero_sha)":
+                    raise T.TranslateError(f"_apply_pack: unexpected call {ast.unparse(n)}")
+                return True
+        return False
+    if "self._has_object" in ast.unparse(ap):
+        ho = ast.unparse(T.find_def(srv, "ReceivePackHandler._has_object"))
+        if "return len(sha) == len(zero_sha) and sha in self.repo.object_store" not in ho:
+            raise T.TranslateError("ReceivePackHandler._has_object is not the modelled test (length and membership)")
+    # is membership of the new object in the object store checked?  (non-atomic loop / atomic validation loop)
+    d["new_object_checked"] = checks_object(plain[0])
+    d["atomic_validates_new"] = checks_object(loops[0])
+    if checks_object(loops[1]):
+        raise T.TranslateError("_apply_pack: the atomic apply loop tests the object store (the model has no switch for that)")
+    # does the validation loop compare old values with the current refs?
     val_src = ast.unparse(loops[0])
-    d["atomic_validates_old"] = any(k in val_src for k in ("refs.read_ref", "refs.follow", "refs.get(", "refs[", "_ref_matches", "_current_ref"))
+    d["atomic_validates_old"] = "_ref_matches" in val_src
+    if d["atomic_validates_old"]:
+        if "self._ref_matches(ref, oldsha, zero_sha, follow=sha != zero_sha)" not in val_src:
+            raise T.TranslateError("_apply_pack: _ref_matches is not called as modelled")
+        rm = ast.unparse(T.find_def(srv, "ReceivePackHandler._ref_matches"))
+        for frag in ("value = self.repo.refs.follow(ref)[1]", "value = self.repo.refs.read_ref(ref)", "return (value or zero_sha) == oldsha"):
+            if frag not in rm:
+                raise T.TranslateError(f"ReceivePackHandler._ref_matches is not the modelled comparison (missing `{frag}`)")
+    elif any(k in val_src for k in ("refs.read_ref", "refs.follow", "refs.get(", "refs[")):
+        raise T.TranslateError("_apply_pack: the validation loop reads refs in a way the model does not know")
     if _calls_attr(loops[0], "set_if_equals") or _calls_attr(loops[0], "remove_if_equals"):
         raise T.TranslateError("_apply_pack: atomic validation loop mutates refs")
     # repaired-only literals
     d["stale"] = d["missing"] = None
-    if d["cas_result_used"] or d["atomic_validates_old"] or d["new_object_checked"]:
+    if d["cas_result_used"] or d["atomic_validates_old"] or d["new_object_checked"] or d["atomic_validates_new"]:
         lits = {n.value for n in ast.walk(ap) if isinstance(n, ast.Constant) and isinstance(n.value, bytes)}
         known = {d[k] for k in ("unpack_name", "ok", "atomic_failed", "failed_delete", "failed_write", "bad_ref", "zero_char")}
         extra = sorted(lits - known)
@@ -238,7 +265,7 @@ def extract(repo: Path) -> dict:
         missing = [x for x in extra if b"missing" in x]
         if (d["cas_result_used"] or d["atomic_validates_old"]) and len(stale) != 1:
             raise T.TranslateError(f"_apply_pack: cannot identify the stale-old status literal among {extra}")
-        if d["new_object_checked"] and len(missing) != 1:
+        if (d["new_object_checked"] or d["atomic_validates_new"]) and len(missing) != 1:
             raise T.TranslateError(f"_apply_pack: cannot identify the missing-object status literal among {extra}")
         d["stale"] = stale[0] if stale else None
         d["missing"] = missing[0] if missing else None
@@ -316,20 +343,43 @@ def extract(repo: Path) -> dict:
         raise T.TranslateError("ReportStatusParser.handle_packet: pkt.strip() x2 not found")
     # LocalGitClient.send_pack messages (used to canonicalise the real messages)
     lsp = T.find_def(cli, "LocalGitClient.send_pack")
-    strs = []
+    strs, fstr = [], []
     for n in ast.walk(lsp):
         if isinstance(n, ast.JoinedStr):
             first = n.values[0]
             if isinstance(first, ast.Constant) and isinstance(first.value, str):
                 strs.append(first.value.strip())
+                fstr.append(first.value.strip())
         elif isinstance(n, ast.Constant) and isinstance(n.value, str) and n.value.startswith(("unable", "atomic")):
             strs.append(n.value.strip())
     d["local_set_prefix"] = _one([s for s in strs if s.startswith("unable to set")], "local 'unable to set' prefix")
     d["local_remove"] = _one([s for s in strs if s.startswith("unable to remove")], "local 'unable to remove'")
     d["local_atomic"] = _one([s for s in strs if s.startswith("atomic")], "local atomic failure message")
     lsrc = ast.unparse(lsp)
-    d["local_uses_cas_result"] = "if not target.refs.set_if_equals(" in lsrc and "if not target.refs.remove_if_equals(" in lsrc
-    d["local_precheck_get_peeled"] = lsrc.count("target.refs.get_peeled(refname)") == 2
+    d["local_uses_cas_result"] = "not target.refs.set_if_equals(" in lsrc and "if not target.refs.remove_if_equals(" in lsrc
+    l_atomic = [n for n in ast.walk(lsp) if isinstance(n, ast.If) and isinstance(n.test, ast.Name) and n.test.id == "atomic"]
+    l_loops = [n for n in ast.walk(lsp) if isinstance(n, ast.For) and "new_refs.items()" in ast.unparse(n.iter)]
+    if len(l_atomic) != 1 or len(l_loops) != 3:
+        raise T.TranslateError("LocalGitClient.send_pack: expected `if atomic:` and three loops over new_refs.items()")
+    pre = [n for n in l_loops if any(n is m for m in ast.walk(l_atomic[0]))]
+    app = [n for n in l_loops[1:] if not any(n is m for m in ast.walk(l_atomic[0]))]
+    if len(pre) != 1 or len(app) != 1:
+        raise T.TranslateError("LocalGitClient.send_pack: cannot tell the atomic pre-check from the apply loop")
+    pre_src, app_src = ast.unparse(pre[0]), ast.unparse(app[0])
+    objtest = "new_sha1 not in target.object_store"
+    d["local_checks_new"] = objtest in app_src
+    d["local_precheck_checks_new"] = objtest in pre_src
+    if pre_src.count("target.refs.get_peeled(refname)") == 2 and pre_src.count("current is not None and current != old_sha1") == 2:
+        d["local_precheck_get_peeled"] = True
+    elif "current = target.refs.follow(refname)[1]" in pre_src and "current = target.refs.read_ref(refname)" in pre_src \
+            and pre_src.count("(current or ZERO_SHA) != old_sha1") == 2 and "get_peeled" not in pre_src:
+        d["local_precheck_get_peeled"] = False
+    else:
+        raise T.TranslateError("LocalGitClient.send_pack: the atomic pre-check reads the current value in a way the model does not know")
+    if d["local_checks_new"] or d["local_precheck_checks_new"]:
+        d["local_missing_prefix"] = _one([s_ for s_ in fstr if s_.startswith("missing")], "local missing-object message")
+    else:
+        d["local_missing_prefix"] = "missing object"
     d["fingerprints"] = {"_apply_pack": T.fingerprint(ap), "_report_status": T.fingerprint(rs), "handle": T.fingerprint(hd),
                          "ReportStatusParser.check": T.fingerprint(chk), "LocalGitClient.send_pack": T.fingerprint(lsp)}
     return d
@@ -390,6 +440,8 @@ def casResultUsed : Bool := {b(d["cas_result_used"])}
 def newObjectChecked : Bool := {b(d["new_object_checked"])}
 /-- does the atomic validation loop compare old values with the current refs? -/
 def atomicValidatesOld : Bool := {b(d["atomic_validates_old"])}
+/-- does the atomic validation loop test `new in object_store`? -/
+def atomicValidatesNew : Bool := {b(d["atomic_validates_new"])}
 /-- is the delete-refs test made against the client's capabilities (false: the server's own list, as coded)? -/
 def deleteCheckClient : Bool := {b(d["delete_check_client"])}
 def atomicCap : Bytes := {lb(d["atomic_cap"])}
@@ -416,6 +468,9 @@ def parserSep : UInt8 := {d["parser_sep"][0]}
 def localUsesCasResult : Bool := {b(d["local_uses_cas_result"])}
 /-- the local atomic pre-check reads `target.refs.get_peeled(refname)` (None for loose refs) -/
 def localPrecheckGetPeeled : Bool := {b(d["local_precheck_get_peeled"])}
+/-- the local apply loop / atomic pre-check test `new_sha1 not in target.object_store` -/
+def localChecksNew : Bool := {b(d["local_checks_new"])}
+def localPrecheckChecksNew : Bool := {b(d["local_precheck_checks_new"])}
 end Dulwich.Gen.ReceivePack
 """
     return {"ReceivePack": src}
@@ -1120,6 +1175,8 @@ def local_msg_kind(msg, ex) -> str:
         return "remove"
     if msg.startswith(ex["local_atomic"]):
         return "atomic"
+    if msg.startswith(ex.get("local_missing_prefix", "missing object")):
+        return "missing"
     return "other:" + msg[:40]
 
 
@@ -1692,7 +1749,7 @@ def _run_corpus(ctx, sd, ex):
     compare_local_batch(ctx, ll, lm)
 
 
-_FALLBACK_EX = {"local_set_prefix": "unable to set", "local_remove": "unable to remove", "local_atomic": "atomic push failed"}
+_FALLBACK_EX = {"local_missing_prefix": "missing object", "local_set_prefix": "unable to set", "local_remove": "unable to remove", "local_atomic": "atomic push failed"}
 
 
 def _extract_or_fallback(ctx):
@@ -1715,17 +1772,16 @@ def run(ctx: core.Ctx):
         "two racing pushers are explored as one deterministic schedule (the second pusher acts between the first one's read of "
         "the refs and its compare-and-swap); finer interleavings belong to C08",
     ]
-    ctx.extra_cov["source_behaviour"] = {k: ex.get(k) for k in ("cas_result_used", "new_object_checked", "atomic_validates_old",
+    ctx.extra_cov["source_behaviour"] = {k: ex.get(k) for k in ("cas_result_used", "new_object_checked", "atomic_validates_old", "atomic_validates_new",
+                                                                "local_checks_new", "local_precheck_checks_new",
                                                                 "bad_ref_catches", "delete_check_client", "local_uses_cas_result",
                                                                 "local_precheck_get_peeled")}
     ctx.extra_cov["fingerprints"] = ex.get("fingerprints")
-    sw = [ex.get("cas_result_used"), ex.get("new_object_checked"), ex.get("atomic_validates_old")]
-    if sw == [False, False, False]:
-        ctx.notes.append("source switches (useCas, checkNew, atomicOld) = off/off/off: Flags.coded = Flags.unrepaired, the "
-                         "_counterexample theorems describe the source (F5)")
-    else:
-        ctx.notes.append(f"source switches (useCas, checkNew, atomicOld) = {sw}: the source is (partly) repaired; the _of_useCas / "
-                         "_of_checkNew / _of_validation theorems apply to it, the _counterexample theorems describe the old behaviour")
+    sw = [ex.get("cas_result_used"), ex.get("new_object_checked"), ex.get("atomic_validates_old"), ex.get("atomic_validates_new")]
+    ctx.notes.append(f"source switches (useCas, checkNew, atomicOld, atomicNew) = {sw}; local (usesCas, checksNew, precheckNew, "
+                     f"precheckPeeled) = {[ex.get('local_uses_cas_result'), ex.get('local_checks_new'), ex.get('local_precheck_checks_new'), ex.get('local_precheck_get_peeled')]}. "
+                     "The headline theorems are stated for these (Flags.coded / LocalFlags.coded); the _counterexample theorems "
+                     "describe the unrepaired behaviour (all off / peeled pre-check)")
     sd = ServerDir(ctx.scratch / "srv")
     _run_corpus(ctx, sd, ex)
     _stream_wire(ctx, sd, ctx.budget(1200))
